@@ -12,7 +12,7 @@ def status(r):
         return '**missed -> strengthened**'
     if h.startswith('MISSED by the check as it stood'):
         return '**missed -> extended on reading the report**'
-    if h.startswith('MISSED') or h.startswith('missed by the check as it stood (fourth') or h.startswith('missed by the check as it stood (fifth') or h.startswith('missed by the check as it stood (sixth'):
+    if h.startswith('MISSED') or h.startswith('missed by the check as it stood (fourth') or h.startswith('missed by the check as it stood (fifth') or h.startswith('missed by the check as it stood (sixth') or h.startswith('missed by the check as it stood (seventh') or h.startswith('missed by C07 and by C17'):
         return '**missed -> strengthened**'
     if h.startswith('C02 caught it as it stood'):
         return 'caught by C02; owning check **missed -> strengthened**'
